@@ -110,6 +110,11 @@ pub enum Op {
     ExtendMany { m: u8, pick: u16, per_partition: u8, add_days: u16, common: bool },
     /// macro: run the chain (with or without a PoSt for every deadline of miner m) to the earliest on-time expiration of its live sectors + rel deadlines
     ToExpiry { m: u8, post: bool, rel: i8 },
+    /// ProveReplicaUpdates3 for up to 4 empty (committed-capacity), healthy sectors chosen across deadlines; the new data is one
+    /// piece per sector: verified (a fresh allocation, 10x QA power, pledge rises) where the sector size allows, else unverified
+    ReplicaUpdate { m: u8, picks: Vec<u16>, verified: bool, bad_proof: bool },
+    /// macro: onboard two batches, prove the next `posts` deadlines with sectors, then a replica update across them
+    SnapCycle { m: u8, n: u8, posts: u8, picks: Vec<u16>, verified: bool, #[serde(default)] withdraw: bool },
 }
 
 #[derive(Clone, Debug, Serialize, Deserialize)]
@@ -517,6 +522,105 @@ impl<'a> Sys<'a> {
                     self.stats.label("bulk_onboarded");
                 }
             }
+            Op::SnapCycle { m, n: cnt, posts, picks, verified, withdraw } => {
+                self.step(i, &Op::Onboard { m: *m, n: *cnt, life_days: 120 })?;
+                self.step(i, &Op::Onboard { m: *m, n: *cnt, life_days: 150 })?;
+                for _ in 0..(2 + *posts % 4) {
+                    self.step(i, &Op::PostNext { m: *m, into: 1, skip: vec![], bad_proof: false, partial: false })?;
+                }
+                self.step(i, &Op::ReplicaUpdate { m: *m, picks: picks.clone(), verified: *verified, bad_proof: false })?;
+                if *withdraw {
+                    self.step(i, &Op::Withdraw { m: *m, by: Who::Owner, pm: 1000 })?;
+                }
+            }
+            Op::ReplicaUpdate { m, picks, verified, bad_proof } => {
+                use fil_actor_verifreg as vr;
+                let mi_ = *m as usize % n;
+                let (id, worker, seal) = (self.miners[mi_].id, self.miners[mi_].worker, self.miners[mi_].seal);
+                let mv = read_miner(&self.w.v, id);
+                // candidates: healthy, proven, empty sectors; prefer one per deadline so that the batch spans deadlines
+                let mut by_deadline: Vec<Vec<(u64, u64, u64)>> = vec![];
+                for (di, d) in mv.deadlines.iter().enumerate() {
+                    let mut here = vec![];
+                    for (pi, p) in d.partitions.iter().enumerate() {
+                        for s in &p.sectors {
+                            let empty = mv.sectors.get(s).map(|i| i.deal_weight.is_zero() && i.verified_weight.is_zero()).unwrap_or(false);
+                            if empty && !p.terminated.contains(s) && !p.faults.contains(s) && !p.unproven.contains(s) {
+                                here.push((di as u64, pi as u64, *s));
+                            }
+                        }
+                    }
+                    if !here.is_empty() {
+                        by_deadline.push(here);
+                    }
+                }
+                if by_deadline.is_empty() {
+                    return Ok(());
+                }
+                let mut chosen: Vec<(u64, u64, u64)> = vec![];
+                for (k, pk) in picks.iter().take(4).enumerate() {
+                    let dl = &by_deadline[(pick(*pk, by_deadline.len()) + k) % by_deadline.len()];
+                    let c = dl[pick(pk.rotate_left(5), dl.len())];
+                    if !chosen.contains(&c) {
+                        chosen.push(c);
+                    }
+                }
+                let ssize = mv.sector_size;
+                let mut updates = vec![];
+                for (d, p, s) in &chosen {
+                    self.piece_counter += 1;
+                    let data = fil_actors_runtime::test_utils::make_piece_cid(format!("snap-{}", self.piece_counter).as_bytes());
+                    let mut key = None;
+                    if *verified && ssize >= (1 << 20) {
+                        let info = &mv.sectors[s];
+                        let life = info.expiration - epoch;
+                        let pol = self.policy().clone();
+                        if life > pol.minimum_verified_allocation_term {
+                            let req = vr::AllocationRequest { provider: id, data, size: fvm_shared::piece::PaddedPieceSize(ssize), term_min: pol.minimum_verified_allocation_term, term_max: std::cmp::min(life + 30 * PERIOD, pol.maximum_verified_allocation_term), expiration: epoch + 10 * PERIOD };
+                            let params = frc46_token::token::types::TransferParams {
+                                to: Address::new_id(fil_actors_runtime::VERIFIED_REGISTRY_ACTOR_ID),
+                                amount: TokenAmount::from_atto(BigInt::from(ssize) * BigInt::from(10u64.pow(18))),
+                                operator_data: RawBytes::serialize(&vr::AllocationRequests { allocations: vec![req], extensions: vec![] }).unwrap(),
+                            };
+                            let from = self.vclient;
+                            let r = self.send(from, fil_actors_runtime::DATACAP_TOKEN_ACTOR_ID, fil_actor_datacap::Method::TransferExported as u64, &zero, &params)?;
+                            if r.ok() {
+                                let ret: Option<frc46_token::token::types::TransferReturn> = r.de();
+                                let resp: Option<vr::AllocationsResponse> = ret.and_then(|t| fvm_ipld_encoding::from_slice(&t.recipient_data).ok());
+                                if let Some(aid) = resp.and_then(|x| x.new_allocations.first().copied()) {
+                                    self.allocs.push((aid, id, data, ssize));
+                                    key = Some(mi::VerifiedAllocationKey { client: self.vclient, id: aid });
+                                }
+                            }
+                        }
+                    }
+                    updates.push(mi::SectorUpdateManifest {
+                        sector: *s,
+                        deadline: *d,
+                        partition: *p,
+                        new_sealed_cid: make_sealed_cid(format!("snap-sealed-{}-{}", id, s).as_bytes()),
+                        pieces: vec![mi::PieceActivationManifest { cid: data, size: fvm_shared::piece::PaddedPieceSize(ssize), verified_allocation_key: key, notify: vec![] }],
+                    });
+                }
+                let p = mi::ProveReplicaUpdates3Params {
+                    sector_proofs: updates.iter().map(|_| RawBytes::new(if *bad_proof { BAD_PROOF.to_vec() } else { vec![7, 7] })).collect(),
+                    sector_updates: updates,
+                    aggregate_proof: RawBytes::default(),
+                    update_proofs_type: seal.registered_update_proof().unwrap(),
+                    aggregate_proof_type: None,
+                    require_activation_success: false,
+                    require_notification_success: false,
+                };
+                let deadlines: BTreeSet<u64> = chosen.iter().map(|c| c.0).collect();
+                let r = self.send(worker, id, mi::Method::ProveReplicaUpdates3 as u64, &zero, &p)?;
+                self.stats.say(|| format!("op {i}: ProveReplicaUpdates3 miner {id} {chosen:?} verified={verified} -> {} {}", r.code.value(), r.message));
+                if r.ok() {
+                    self.stats.label("replica_updated");
+                    if deadlines.len() >= 2 {
+                        self.stats.label("replica_update_across_deadlines");
+                    }
+                }
+            }
             Op::ToExpiry { m, post, rel } => {
                 let mv = read_miner(&self.w.v, self.miners[*m as usize % n].id);
                 let mut first: Option<i64> = None;
@@ -582,7 +686,7 @@ impl<'a> Sys<'a> {
                         let cur = (rel / DEADLINE_EPOCHS) as usize;
                         let base = epoch - rel;
                         let mut t = epoch;
-                        for k in 0..48usize {
+                        for k in 0..=48usize {
                             let d = (cur + k) % 48;
                             let live = mv.deadlines[d].partitions.iter().any(|p| p.sectors.len() > p.terminated.len());
                             if live {
@@ -928,6 +1032,8 @@ impl<'a> Sys<'a> {
                     6 => epoch + self.policy().min_sector_expiration + max_prove + 10,
                     // beyond the claims' maximum term
                     7 if term_hi < i64::MAX => base + term_hi + PERIOD,
+                    // as late as the claims allow (a few days before the earliest claim term end)
+                    5 if term_hi < i64::MAX && term_hi - (1 + *life_days as i64 % 20) * PERIOD >= std::cmp::max(self.policy().min_sector_expiration, term_lo) + max_prove => epoch + 151 + term_hi - (1 + *life_days as i64 % 20) * PERIOD,
                     _ => base + std::cmp::max(self.policy().min_sector_expiration, term_lo) + (*life_days as i64 % 300) * PERIOD,
                 };
                 let num = self.miners[mi_].next_sector;
@@ -991,28 +1097,62 @@ impl<'a> Sys<'a> {
                 if *target % 3 == 2 && info.expiration - epoch > super::verified::DROP_PERIOD {
                     // move into the final 30 days of the sector's life first
                     let t = info.expiration - super::verified::DROP_PERIOD + (*rel as i64) * 10;
-                    if t > epoch && t - epoch < 220 * PERIOD {
+                    if t > epoch && t - epoch < 230 * PERIOD {
                         self.stats.label("advanced_to_end_of_life");
+                        // keep the miner's sectors proven on the way
+                        let days = ((t - epoch) / PERIOD) as u16;
+                        if days > 0 {
+                            self.step(i, &Op::Long { m: *m, days, post: true })?;
+                        }
                         self.advance_to(t)?;
                     }
                 }
                 let epoch = self.w.v.epoch();
                 let new_expiration = match target % 3 {
                     1 => min_end + *rel as i64,
+                    // at the end of life: half of the time aim just beyond the earliest claim term end
+                    2 if *rel > 0 && min_end >= info.expiration => min_end + *rel as i64,
                     _ => info.expiration + (*add_days as i64 % 300) * PERIOD,
                 };
                 let ids: Vec<u64> = claims.iter().map(|(k, _)| *k).collect();
-                let (maintain, drop): (Vec<u64>, Vec<u64>) = match mode % 5 {
+                // claims ordered by the end of their term: the first is the one whose term ends first
+                let mut by_end: Vec<(u64, i64, u64)> = claims.iter().map(|(k, c)| (*k, c.term_start + c.term_max, c.size)).collect();
+                by_end.sort_by_key(|x| x.1);
+                let mut new_expiration = new_expiration;
+                let mut second_decl: Option<i64> = None;
+                // at the end of life the interesting declarations are the ones that drop claims
+                let mode_eff = if *target % 3 == 2 && *mode % 7 == 0 { [2u8, 2, 1, 0][(*pk as usize / 7) % 4] } else { *mode };
+                let (maintain, drop): (Vec<u64>, Vec<u64>) = match mode_eff % 7 {
                     0 => (ids.clone(), vec![]),
                     1 => (vec![], ids.clone()),
                     2 => (ids.iter().skip(1).copied().collect(), ids.iter().take(1).copied().collect()),
                     3 => (vec![], vec![]),
-                    _ => {
+                    4 => {
                         let mut v = ids.clone();
                         if let Some((k, _)) = reg.claims.iter().find(|(_, c)| !(c.provider == id && c.sector == s)) {
                             v.push(*k);
                         }
                         (v, vec![])
+                    }
+                    5 => {
+                        // one claim named twice in place of another of the same size whose term ends earlier;
+                        // the new expiration lies beyond the omitted claim's term but within the repeated one's
+                        let mut v = ids.clone();
+                        if by_end.len() >= 2 {
+                            let (early, late) = (by_end[0], by_end[by_end.len() - 1]);
+                            if early.2 == late.2 && late.1 > early.1 {
+                                v = ids.iter().map(|k| if *k == early.0 { late.0 } else { *k }).collect();
+                                new_expiration = std::cmp::min(late.1, early.1 + 1 + (*add_days as i64 % 200) * PERIOD);
+                                self.stats.label("extension_names_a_claim_twice");
+                            }
+                        }
+                        (v, vec![])
+                    }
+                    _ => {
+                        // the sector is named again, without claims, in a second declaration with a later expiration
+                        second_decl = Some(min_end + 1 + (*add_days as i64 % 100) * PERIOD);
+                        new_expiration = std::cmp::min(new_expiration, min_end);
+                        (ids.clone(), vec![])
                     }
                 };
                 let loc = Self::locate(&mv, &[s]);
@@ -1024,8 +1164,14 @@ impl<'a> Sys<'a> {
                 } else {
                     vec![mi::SectorClaim { sector_number: s, maintain_claims: maintain.clone(), drop_claims: drop.clone() }]
                 };
-                let ext = mi::ExpirationExtension2 { deadline: *d, partition: *p, sectors: b, sectors_with_claims: swc, new_expiration };
-                let r = self.send(worker, id, mi::Method::ExtendSectorExpiration2 as u64, &zero, &mi::ExtendSectorExpiration2Params { extensions: vec![ext] })?;
+                let mut exts = vec![mi::ExpirationExtension2 { deadline: *d, partition: *p, sectors: b, sectors_with_claims: swc, new_expiration }];
+                if let Some(e2) = second_decl {
+                    let mut b2 = BitField::new();
+                    b2.set(s);
+                    exts.push(mi::ExpirationExtension2 { deadline: *d, partition: *p, sectors: b2, sectors_with_claims: vec![], new_expiration: e2 });
+                    self.stats.label("extension_names_a_sector_twice");
+                }
+                let r = self.send(worker, id, mi::Method::ExtendSectorExpiration2 as u64, &zero, &mi::ExtendSectorExpiration2Params { extensions: exts })?;
                 self.stats.say(|| format!("op {i}: ExtendV miner {id} sector {s} (expiration {}) to {new_expiration} maintain {maintain:?} drop {drop:?} at {epoch} -> {} {}", info.expiration, r.code.value(), r.message));
                 if r.ok() {
                     self.stats.label("extended");
@@ -1221,20 +1367,23 @@ pub fn who_strategy() -> impl Strategy<Value = Who> {
 }
 
 pub fn op_strategy_w(bulk: u32, long: u32, dispute: u32, verified: u32, benef: u32) -> impl Strategy<Value = Op> {
+    let snap = if benef == 4 { 40 } else { 10 };
     // moving a sector into the last 30 days of its life costs >= 150 days of ticks
     let eol = if long >= 6 { 6 } else if verified >= 20 { 3 } else { 1 };
     prop_oneof![
         2000 => op_strategy(),
+        15 => (0u8..4, proptest::collection::vec(any::<u16>(), 1..5), prop_oneof![3 => Just(true), 1 => Just(false)], prop_oneof![12 => Just(false), 1 => Just(true)]).prop_map(|(m, picks, verified, bad_proof)| Op::ReplicaUpdate { m, picks, verified, bad_proof }),
+        snap => (0u8..4, 0u8..4, 0u8..4, proptest::collection::vec(any::<u16>(), 2..5), prop_oneof![3 => Just(true), 1 => Just(false)], any::<bool>()).prop_map(|(m, n, posts, picks, verified, withdraw)| Op::SnapCycle { m, n, posts, picks, verified, withdraw }),
         bulk * 5 => (0u8..4, any::<u16>(), 0u8..3, 0u16..300, any::<bool>()).prop_map(|(m, pick, per_partition, add_days, common)| Op::ExtendMany { m, pick, per_partition, add_days, common }),
         bulk * 10 => (0u8..4, 0u8..40, prop_oneof![1 => Just(0u16), 2 => 0u16..400]).prop_map(|(m, n, life_days)| Op::Bulk { m, n, life_days }),
         benef => (0u8..4, prop_oneof![1 => 1u32..20_000, 2 => 1_000_000u32..4_000_000], 3u16..600, -2i8..3, prop_oneof![Just(Who::Owner), Just(Who::Beneficiary)], 1u16..1000).prop_map(|(m, quota_milli, exp_rel, rel, by, pm)| Op::BeneficiaryCycle { m, quota_milli, exp_rel, rel, by, pm }),
         dispute * 2 => (0u8..4, 0u8..5, -1i16..40).prop_map(|(m, into, rel)| Op::BadPostDispute { m, into, rel }),
         dispute => (any::<u16>(), prop_oneof![4 => -1i16..3, 2 => 0i16..1800, 1 => 1795i16..1805], prop_oneof![4 => Just(0u8), 1 => Just(1u8)]).prop_map(|(pick, rel, index)| Op::DisputeRecent { pick, rel, index }),
         30 => (any::<u16>(), any::<bool>(), faultable_op()).prop_map(|(ordinal, syscall, op)| Op::WithFault { ordinal, syscall, op: Box::new(op) }),
-        verified * 4 => (0u8..4, proptest::collection::vec(0u8..4, 1..4), 0u16..300, 0u16..1500, prop_oneof![6 => 0u8..6, 1 => 6u8..8]).prop_map(|(m, sizes, life_days, term_extra_days, exp_mode)| Op::OnboardV { m, sizes, life_days, term_extra_days, exp_mode }),
+        verified * 4 => (0u8..4, proptest::collection::vec(0u8..4, 1..4), 0u16..300, prop_oneof![1 => 31u16..200, 2 => 0u16..1500], prop_oneof![4 => 0u8..5, 3 => Just(5u8), 1 => 6u8..8]).prop_map(|(m, sizes, life_days, term_extra_days, exp_mode)| Op::OnboardV { m, sizes, life_days, term_extra_days, exp_mode }),
         verified => (0u8..4, proptest::collection::vec(0u8..4, 1..4), 0u16..400, 0u16..1500, 0u8..70).prop_map(|(m, sizes, term_min_extra_days, term_extra_days, exp_days)| Op::Allocate { m, sizes, term_min_extra_days, term_extra_days, exp_days }),
         verified => (0u8..4, proptest::collection::vec(any::<u16>(), 1..4), 0u16..300, any::<bool>(), 0u8..8).prop_map(|(m, picks, life_days, filler, exp_mode)| Op::PreCommitV { m, picks, life_days, filler, exp_mode }),
-        verified * 4 => (0u8..4, any::<u16>(), 0u16..300, prop_oneof![3 => Just(0u8), 1 => 1u8..5], prop_oneof![8 => Just(0u8), 6 => Just(1u8), eol => Just(2u8)], -2i8..3).prop_map(|(m, pick, add_days, mode, target, rel)| Op::ExtendV { m, pick, add_days, mode, target, rel }),
+        verified * 4 => (0u8..4, any::<u16>(), 0u16..300, prop_oneof![3 => Just(0u8), 2 => 1u8..7], prop_oneof![8 => Just(0u8), 6 => Just(1u8), eol => Just(2u8)], -2i8..3).prop_map(|(m, pick, add_days, mode, target, rel)| Op::ExtendV { m, pick, add_days, mode, target, rel }),
         verified => (any::<u16>(), 0u16..800, prop_oneof![5 => Just(true), 1 => Just(false)]).prop_map(|(pick, add_days, by_client)| Op::ExtendClaim { pick, add_days, by_client }),
         verified => (0u8..4, any::<bool>()).prop_map(|(m, claims)| Op::RemoveExpired { m, claims }),
         (if long >= 6 { long / 2 } else { 1 }) => (0u8..4, prop_oneof![4 => Just(true), 1 => Just(false)], -1i8..3).prop_map(move |(m, post, rel)| if long >= 6 { Op::ToExpiry { m, post, rel } } else { Op::Advance(Adv::Epochs(rel.unsigned_abs() as u16)) }),
